@@ -223,6 +223,7 @@ func runC07(c *core.Ctx) {
 	c07WrapDiscipline(c)
 	c07ClientWrap(c)
 	c07Prefixes(c)
+	prefixBuiltOnEveryPath(c, "C07.R6")
 	c07Is(c)
 }
 
